@@ -4,10 +4,11 @@ A pattern is described by a small AST so that known-finding scope predicates can
   ("atom", text) | ("q", node, quant) | ("cat", x, y) | ("alt", x, y) | ("grp", x)
 """
 ATOMS_FULL = ["a", "b", "0", "-", " ", "_",
-              "\\.", "\\*", "\\+", "\\(", "\\|", "\\?", "\\[", "\\\\",
+              "\\.", "\\*", "\\+", "\\(", "\\)", "\\|", "\\?", "\\[", "\\]", "\\\\",
               ".", "\\d", "\\s", "\\w",
               "[ab]", "[^a]", "[a-c]", "[a\\-c]", "[+*]", "[\\d_]", "[^a-c0]", "[.]", "[(|)]", "[a-]", "[\\]a]",
-              "[^\\d]", "[^\\-a]", "[^\\]]", "[\\^a]", "[^\\w]", "[^b^]", "[a^]"]
+              "[^\\d]", "[^\\-a]", "[^\\]]", "[\\^a]", "[^\\w]", "[^b^]", "[a^]",
+              "[\\d.]", "[\\w+]", "[.\\d]", "\\\\d", "[\\s ]", "[\\\\d]"]
 ATOMS_SMALL = ["a", ".", "[ab]", "\\d", "\\+", "[^a]"]
 QUANTS = ["", "*", "+", "?", "{0}", "{1}", "{2}", "{0,1}", "{1,2}", "{2,2}", "{0,0}", "{1,1}", "{2,3}"]
 QUANTS_SMALL = ["", "*", "+", "?", "{2}", "{1,2}", "{0,1}"]
@@ -116,7 +117,7 @@ def has_zero_min(node):
     return any(isinstance(x, tuple) and has_zero_min(x) for x in node[1:])
 
 
-ALPHA12 = ["a", "b", "c", "0", "-", " ", "+", ".", "(", "|", "\\", "_", "^", "]"]
+ALPHA12 = ["a", "b", "c", "0", "-", " ", "+", ".", "(", ")", "|", "\\", "_", "^", "]"]
 ALPHA4 = ["a", "b", "0", "-"]
 
 
